@@ -25,7 +25,7 @@ RULE = (
     "Hypothesis-generated task signatures (exec'd source so inspect/get_type_hints/DependencyGraph see real "
     "functions): 1-6 parameters, each un-annotated / Any / int / float / str / bool / List[int] / Dict[str,int] / "
     "Optional[int] / pydantic model / dataclass / two factory-built pydantic models that are distinct classes with an identical repr, positional-or-keyword or keyword-only, with or without default, "
-    "TaskiqDepends parameters at any position; a VALID call split (positional prefix up to the first dependency or "
+    "TaskiqDepends parameters at any position (for a third of them the caller passes an explicit value by keyword, which must win over the dependency); a VALID call split (positional prefix up to the first dependency or "
     "omitted parameter, the rest by keyword, defaults optionally omitted); values JSON-exact (None, bool, ints incl. "
     ">64 bit, finite floats, surrogate-free text, nested lists/dicts) or model/dataclass instances; validate_params "
     "on/off; codec JSON / pickle / JSONFormatter; sync or async function. >=50% of the cases come from a 'drift' family: "
@@ -51,6 +51,10 @@ class M(pydantic.BaseModel):
 class D:
     a: int
     b: typing.List[int] = dataclasses.field(default_factory=list)
+
+
+def _dep_value() -> str:
+    return "FROM-DEPENDENCY"
 
 
 def _payload(fields: Dict[str, Any]) -> Any:
@@ -79,7 +83,8 @@ VALUE = st.one_of(
 
 
 def _param(anns: Any, vals: Any, kwonly: Any, dflt: Any, dep: Any, omit: Any, as_kw: Any) -> Any:
-    return st.fixed_dictionaries(dict(ann=anns, kwonly=kwonly, has_default=dflt, dep=dep, val=vals, omit=omit, as_kw=as_kw))
+    return st.fixed_dictionaries(dict(ann=anns, kwonly=kwonly, has_default=dflt, dep=dep, val=vals, omit=omit, as_kw=as_kw,
+                                      dep_passed=st.sampled_from([False, False, True])))
 
 
 def cases() -> Any:
@@ -176,7 +181,10 @@ def run_case(c: Dict[str, Any]) -> Outcome:
         nm = f"p{k}"
         names[id(p)] = nm
         a = ANN[p["ann"]]
-        if p["dep"]:
+        if p["dep"] and p.get("dep_passed"):
+            # a parameter with a dependency default for which the caller supplies an explicit value by keyword
+            frag = f"{nm} = TaskiqDepends(_dep_value)"
+        elif p["dep"]:
             frag = f"{nm}: Context = TaskiqDepends()"
         else:
             frag = nm + (f": {a}" if a else "") + (" = 'DEFAULT'" if p["has_default"] else "")
@@ -185,7 +193,7 @@ def run_case(c: Dict[str, Any]) -> Outcome:
     if kwo:
         sig += (", " if sig else "") + "*, " + ", ".join(f for p, f in plist if p["kwonly"])
     got: Dict[str, Any] = {}
-    ns = {"typing": typing, "M": M, "D": D, "MA": MA, "MB": MB, "Context": Context, "TaskiqDepends": TaskiqDepends, "GOT": got, "__name__": __name__}
+    ns = {"typing": typing, "M": M, "D": D, "MA": MA, "MB": MB, "_dep_value": _dep_value, "Context": Context, "TaskiqDepends": TaskiqDepends, "GOT": got, "__name__": __name__}
     allnames = [names[id(p)] for p, _ in plist]
     body = "    GOT.update(dict(" + ", ".join(f"{n}={n}" for n in allnames) + "))\n"
     exec(("async def" if c["is_async"] else "def") + f" task({sig}):\n" + body, ns)
@@ -197,6 +205,9 @@ def run_case(c: Dict[str, Any]) -> Outcome:
         nm = names[id(p)]
         if p["dep"]:
             positional_open = False
+            if p.get("dep_passed"):
+                kwargs[nm] = mkval(p["val"])
+                passed[nm] = "kw"
             continue
         if p["has_default"] and p["omit"]:
             positional_open = False
@@ -210,6 +221,10 @@ def run_case(c: Dict[str, Any]) -> Outcome:
             passed[nm] = "kw"
     for p in kwo:
         nm = names[id(p)]
+        if p["dep"] and p.get("dep_passed"):
+            kwargs[nm] = mkval(p["val"])
+            passed[nm] = "kw"
+            continue
         if p["dep"] or (p["has_default"] and p["omit"]):
             continue
         kwargs[nm] = mkval(p["val"])
@@ -248,6 +263,12 @@ def run_case(c: Dict[str, Any]) -> Outcome:
     anns_in_sig = {p["ann"] for p in pos + kwo if not p["dep"]}
     for p in pos + kwo:
         nm = names[id(p)]
+        if p["dep"] and p.get("dep_passed"):
+            sent = wire(p["val"])
+            if not strict_eq(got.get(nm), sent):
+                out.add("C08.a", f"def task({sig}) called with kwargs={short(kwargs, 150)}: parameter {nm} has a dependency default but the caller passed "
+                                 f"{short(sent, 80)} for it; the function received {short(got.get(nm), 80)}")
+            continue
         if p["dep"]:
             if not isinstance(got.get(nm), Context):
                 out.add("C08.b", f"dependency parameter {nm} received {short(got.get(nm), 80)} instead of a Context; def task({sig})")
